@@ -70,7 +70,7 @@ def _chunk(lines):
     return res
 
 
-def replay_file(path: str, nproc: int) -> list:
+def replay_file(path: str, nproc: int, pool=None) -> list:
     lines = []
     with open(path, "r", errors="replace") as f:
         for line in f:
@@ -79,10 +79,15 @@ def replay_file(path: str, nproc: int) -> list:
     step = max(1, len(lines) // (nproc * 4) + 1)
     chunks = [lines[i:i + step] for i in range(0, len(lines), step)]
     res = []
-    ctx = mp.get_context("fork")
-    with ctx.Pool(nproc) as pool:
+    own = pool is None
+    if own:
+        pool = mp.get_context("fork").Pool(nproc)
+    try:
         for r in pool.imap(_chunk, chunks):
             res += r
+    finally:
+        if own:
+            pool.terminate()
     return res
 
 
